@@ -650,7 +650,8 @@ class Condition(ConditionLike):
                     if not result_i:
                         callable_false_i = True
 
-                except (TypeError, AttributeError):
+                except (TypeError, AttributeError, ArithmeticError, ValueError):
+                    # e.g. modulo by a zero datum, or `%` applied to a string datum
                     callable_error_i = True
 
             pre_processor_error.append(pre_processor_error_i)
